@@ -6,7 +6,7 @@
    are concatenations of encodings (the assumption spelt out at scope.go:570,
    which is FALSE on the pinned tree: Refuted/C06_refuted.v). *)
 From Coq Require Import ZArith List Lia Bool.
-From Tally Require Import Base.Obs Gen.Params Model.Utf8 Proof.Utf8P Model.Sanitize Proof.SanitizeP Model.SanScope.
+From Tally Require Import Base.ObsCore Gen.Params Model.Utf8 Proof.Utf8P Model.Sanitize Proof.SanitizeP Model.SanScope.
 Import ListNotations.
 Open Scope Z_scope.
 
